@@ -111,6 +111,11 @@ Proof.
   - apply IH. exact HIn.
 Qed.
 
+Lemma fold_dt_leaf arrs : forall d0, fold_dt arrs d0 = fold_left promote (map leaf_dt (map np_of arrs)) d0.
+Proof.
+  induction arrs as [|[[d n] dat] rest IH]; intros d0; cbn; [reflexivity|]. apply IH.
+Qed.
+
 Lemma mapM_np_part arrs : mapM np_part (map np_of arrs) = Ok (map (fun x => [np_tuple x]) arrs).
 Proof.
   induction arrs as [|[[dt n] data] rest IH]; cbn; [reflexivity|].
@@ -588,7 +593,8 @@ Theorem mm_sk s : forall f cs,
   Forall (fun c => has_sk s c = true) cs -> Forall tl_ok cs ->
   exists c, mm f cs = Ok c /\ has_sk s c = true /\
             to_list c = Ok (concat (map (fun x => map (deep_cast (leaf_dt c)) (vals x)) cs)) /\
-            (sk_ok s = true -> valid_b c = true).
+            (sk_ok s = true -> valid_b c = true) /\
+            leaf_dt c = fold_left promote (map leaf_dt cs) (leaf_dt (hd Empty cs)).
 Proof.
   induction s as [|s' IH|s' IH]; intros f cs Hf Hlen Hsk Htl.
   - (* ---- numbers ---- *)
@@ -604,7 +610,9 @@ Proof.
     eexists. split; [reflexivity|]. split; [reflexivity|].
     assert (Hlen' : zlen (concat (map np_filled arrs)) = sumZ (map np_n arrs)) by (apply zlen_concat_filled; exact Hok).
     assert (Hnn : 0 <= sumZ (map np_n arrs)) by (apply sum_n_nonneg; exact Hok).
-    split; [|intros _; unfold valid_b; cbn [validb paramcheck forallb]; rewrite prodZ_one; lia].
+    split; [|split; [intros _; unfold valid_b; cbn [validb paramcheck forallb]; rewrite prodZ_one; lia|]].
+    2:{ cbn [leaf_dt hd]. change (Numpy dta [na] dataa :: np_of b :: map np_of others) with (map np_of arrs).
+        apply fold_dt_leaf. }
     cbn [leaf_dt].
     rewrite to_list_merged_numpy; auto.
     + f_equal. change (Numpy dta [na] dataa :: np_of b :: map np_of others) with (map np_of arrs).
@@ -622,7 +630,7 @@ Proof.
       - eapply Forall_forall in Hsk; eauto.
       - eapply Forall_forall in Htl; eauto. }
     (* the merged content *)
-    destruct (IH f' (map lv_c cs)) as (cm & Hcm & Hskm & Htlm & Hvm).
+    destruct (IH f' (map lv_c cs)) as (cm & Hcm & Hskm & Htlm & Hvm & Hdtm).
     { lia. } { rewrite map_length. cbn. lia. }
     { apply Forall_forall. intros c Hc. apply in_map_iff in Hc. destruct Hc as (x & <- & Hx).
       eapply Forall_forall in HV; eauto. tauto. }
@@ -636,7 +644,12 @@ Proof.
     { eapply Forall_impl; [|exact HV]. cbn. tauto. }
     specialize (HF HFpre []). cbn [app] in HF. change (zlen (@nil value)) with 0 in HF.
     destruct (fill_lists 0 (map lv_tuple cs)) as [ss es] eqn:EF. cbn [fst snd] in HF. destruct HF as [HFl HFm].
-    exists (ListA I64 ss es cm). split; [|split; [|split]].
+    exists (ListA I64 ss es cm). split; [|split; [|split; [|split]]].
+    5:{ cbn [leaf_dt]. rewrite Hdtm, map_map.
+        assert (HE : map (fun x => leaf_dt (lv_c x)) cs = map leaf_dt cs).
+        { apply map_ext_in. intros x Hx. eapply Forall_forall in HV; eauto. symmetry. tauto. }
+        rewrite HE. f_equal. unfold cs. cbn [map hd].
+        pose proof (Forall_inv (a:=a) (l:=oth) HV) as Ha'. cbn beta in Ha'. symmetry. tauto. }
     + cbn [mm]. unfold mm_step.
       assert (Hba : body a = a /\ params a = nopar).
       { inversion Hsk; subst. destruct (has_sk_nopar _ _ H1). auto. }
@@ -687,7 +700,7 @@ Proof.
     { apply Forall_forall. intros x Hx. apply (ix_view s').
       - eapply Forall_forall in Hsk; eauto.
       - eapply Forall_forall in Htl; eauto. }
-    destruct (IH f' (map iv_c cs)) as (cm & Hcm & Hskm & Htlm & Hvm).
+    destruct (IH f' (map iv_c cs)) as (cm & Hcm & Hskm & Htlm & Hvm & Hdtm).
     { lia. } { rewrite map_length. cbn. lia. }
     { apply Forall_forall. intros c Hc. apply in_map_iff in Hc. destruct Hc as (x & <- & Hx).
       eapply Forall_forall in HV; eauto. tauto. }
@@ -707,7 +720,12 @@ Proof.
       cbn in Hx'. repeat split; try tauto. apply Hany. exact Hx. }
     specialize (HF HFpre []). cbn [app] in HF. change (zlen (@nil value)) with 0 in HF.
     set (index := fill_index 0 (map iv_tuple cs)) in *.
-    exists (if anyopt then IndexedOption I64 index cm else Indexed I64 index cm). split; [|split; [|split]].
+    exists (if anyopt then IndexedOption I64 index cm else Indexed I64 index cm). split; [|split; [|split; [|split]]].
+    5:{ assert (HE : map (fun x => leaf_dt (iv_c x)) cs = map leaf_dt cs).
+        { apply map_ext_in. intros x Hx. eapply Forall_forall in HV; eauto. symmetry. tauto. }
+        assert (Hl : leaf_dt (if anyopt then IndexedOption I64 index cm else Indexed I64 index cm) = leaf_dt cm) by (destruct anyopt; reflexivity).
+        rewrite Hl, Hdtm, map_map, HE. f_equal. unfold cs. cbn [map hd].
+        pose proof (Forall_inv (a:=a) (l:=oth) HV) as Ha'. cbn beta in Ha'. symmetry. tauto. }
     + cbn [mm]. unfold mm_step.
       assert (Hba : body a = a /\ params a = nopar).
       { inversion Hsk; subst. destruct (has_sk_nopar _ _ H1). auto. }
@@ -881,7 +899,7 @@ Proof.
     - eapply Forall_forall in Hsk; eauto.
     - eapply Forall_forall in Hv; eauto. }
   destruct cs as [|a rest]; [cbn in Hlen; lia|].
-  destruct (mm_sk s (mm_fuel (a :: rest)) (a :: rest)) as (c' & Hc & Hs' & _ & Hval); auto.
+  destruct (mm_sk s (mm_fuel (a :: rest)) (a :: rest)) as (c' & Hc & Hs' & _ & Hval & _); auto.
   { inversion Hsk; subst. pose proof (need_le_csize _ _ H1). unfold mm_fuel. cbn [fold_right length]. lia. }
   unfold mergemany in Hm. rewrite Hc in Hm. inversion Hm; subst. split; [|exact Hs'].
   apply Hval. inversion Hsk; inversion Hv; subst. eapply valid_sk_ok; eauto.
